@@ -6,10 +6,7 @@ from .readerlib import both_modes, dump_dict
 ID = 'C14'
 TARGETS = ['theories/Properties/C14.vo']
 THEOREMS = core.theorems_of(ID)
-LEVEL = ('the generated data_type / into_struct_array / from_struct_array triples are regenerated on every run; proved from kernel-checked closed obligations: the Arrow leaves '
-         '(names, nesting, primitive types, gates) are the reader\'s leaves, i.e. the spec table; the three tables agree positionally and enabled fields form a prefix for every '
-         'version, so from(into(columns)) = columns; the hand-written Frame/PortData/Data glue is modelled (Model/View.v arrow_frame) and tied to the real arrow2 arrays by '
-         'differential runs; oracle: schema from Layout/Spec.v, each exported column = in-memory column, validity = presence, re-import serialises to the identical .slp')
+LEVEL = ("proved (Properties/C14.v): the regenerated Arrow schema leaves are the reader's leaves = the spec per version; data_type / into / from agree positionally; enabled fields form a prefix; the export model is total for every version and non-empty port set with children id, ports, start (>= 2.2), end (>= 3.7), item (>= 3.0); differential run of into_struct_array / from_struct_array on generated games of every layout version")
 
 PRIM = {'U8': 'u8', 'I8': 'i8', 'U16': 'u16', 'I16': 'i16', 'U32': 'u32', 'I32': 'i32', 'F32': 'f32'}
 PORTN = ['P1', 'P2', 'P3', 'P4']
